@@ -37,12 +37,12 @@ static long long tmo_us[] = {0, 1500, 3000, 3600000000LL};	/* the last one: 1 ho
 #define NTMO 4
 /*
  * --alt: timers are registered through events_timer_register_double() with values that are exact in binary
- * (0, 2^-9 s, 2^-8 s, 30 days; the library truncates to whole microseconds), and the far timer lies beyond
+ * (0, 2^-9 s, 2147483.875 s, 30 days; the library truncates to whole microseconds); the last two lie at and beyond
  * INT_MAX milliseconds, so that the poll timeout has to be clamped and the wait resumed afterwards.
  */
 static int alt_mode;
-static const double tmo_alt_s[] = {0.0, 0.001953125, 0.00390625, 2592000.0};
-static const long long tmo_alt_us[] = {0, 1953, 3906, 2592000000000LL};
+static const double tmo_alt_s[] = {0.0, 0.001953125, 2147483.875, 2592000.0};	/* INT_MAX / 1000 = 2147483: the third value lies inside the boundary second */
+static const long long tmo_alt_us[] = {0, 1953, 2147483875000LL, 2592000000000LL};
 /* just before a second boundary, so that deadlines, sleeps and poll time-outs cross it */
 #define CLOCK_START 1998000LL
 
@@ -144,7 +144,7 @@ check_still_registered(const char * when)
 int
 poll(struct pollfd * fds, nfds_t n, int timeout)
 {
-	nfds_t i; int cnt = 0, c, k = 0, j, nopt; struct { nfds_t idx; short bit; } opt[16];
+	nfds_t i; int cnt = 0, c, k = 0, j, nopt, nbase, npair; struct { nfds_t idx; short bit; } opt[16];
 	long long mind = -1;
 
 	if (teardown_mode) { for (i = 0; i < n; i++) fds[i].revents = 0; return (0); }
@@ -184,7 +184,30 @@ poll(struct pollfd * fds, nfds_t n, int timeout)
 	 * interrupt request; EINTR alone.
 	 */
 	nopt = 2 + k + (int)n + 3 + (k >= 3 ? k : 0);	/* with >= 3 requested events also: everything except one of them */
+	/*
+	 * with >= 3 polled descriptors also: one descriptor hung up / in error AND exactly one requested event of another
+	 * descriptor ready, the rest not (a stale answer left in a pollfd slot shows only if its new occupant was not reported)
+	 */
+	nbase = nopt; npair = 0;
+	if (n >= 3) for (i = 0; i < n; i++) for (j = 0; j < k; j++) if (opt[j].idx != i) npair++;
+	nopt += npair;
+	/* last option, only for a poll that really waits: the signal (EINTR + interrupt request) arrives when the whole time-out has passed */
+	if (timeout > 0) nopt++;
 	c = mc_choose(nopt, "poll");
+	if (c >= nbase && c < nbase + npair) {
+		int want = c - nbase, seen = 0;
+		for (j = 0; j < 16; j++) hup_latest[j] = 0;
+		for (j = 0; j < nreg; j++) R[j].reported_latest = 0;
+		for (i = 0; i < n; i++) for (j = 0; j < k; j++) if (opt[j].idx != i) {
+			if (seen++ == want) { fds[i].revents = (want & 1) ? POLLHUP : POLLERR; if (fds[i].fd < 16) hup_latest[fds[i].fd] = 1; fds[opt[j].idx].revents |= opt[j].bit; }
+		}
+		goto report;
+	}
+	if (timeout > 0 && c == nopt - 1) {
+		now_us += (long long)timeout * 1000;
+		events_interrupt(); intr_seen_in_run = 1; if (stop_expected == 0) stop_expected = 1;
+		mc_note(" -> EINTR + interrupt request after the whole time-out, t=%lld", now_us); errno = EINTR; return (-1);
+	}
 	for (j = 0; j < 16; j++) hup_latest[j] = 0;
 	for (j = 0; j < nreg; j++) R[j].reported_latest = 0;
 	if (c == 0) { for (j = 0; j < k; j++) fds[opt[j].idx].revents |= opt[j].bit; }
@@ -193,8 +216,13 @@ poll(struct pollfd * fds, nfds_t n, int timeout)
 	else if (c < 2 + k + (int)n) { i = (nfds_t)(c - 2 - k); fds[i].revents = (c & 1) ? POLLHUP : POLLERR; if (fds[i].fd < 16) hup_latest[fds[i].fd] = 1; }
 	else if (c == 2 + k + (int)n) { if (timeout > 0) now_us += (long long)timeout * 500; mc_note(" -> 0 (early wake-up), t=%lld", now_us); return (0); }
 	else if (c >= 2 + k + (int)n + 3) { int ex = c - (2 + k + (int)n + 3); for (j = 0; j < k; j++) if (j != ex) fds[opt[j].idx].revents |= opt[j].bit; }
-	else if (c == 2 + k + (int)n + 1) { events_interrupt(); intr_seen_in_run = 1; if (stop_expected == 0) stop_expected = 2; mc_note(" -> EINTR + interrupt request"); errno = EINTR; return (-1); }
+	else if (c == 2 + k + (int)n + 1) { events_interrupt(); intr_seen_in_run = 1;
+		/* a poll with a non-zero time-out is the blocking one at the start of a pass: the request is seen before anything is dispatched;
+		 * inside the dispatch loop (time-out 0) the library may still run the one event that poll made available */
+		if (stop_expected == 0) stop_expected = (timeout != 0) ? 1 : 2;
+		mc_note(" -> EINTR + interrupt request"); errno = EINTR; return (-1); }
 	else if (c == 2 + k + (int)n + 2) { mc_note(" -> EINTR"); errno = EINTR; return (-1); }
+report:
 	for (i = 0; i < n; i++) if (fds[i].revents) {
 		cnt++;
 		for (j = 0; j < nreg; j++) if (R[j].live && R[j].kind == K_NET && R[j].fd == fds[i].fd) {
@@ -433,7 +461,7 @@ main(int argc, char ** argv)
 	snprintf(args, sizeof(args), "[\"--ops\",\"%d\",\"--cb\",\"%d\",\"--nfd\",\"%d\"]", op_bound, cb_action_bound, NFD);
 	cfg.args_json = args;
 	vf_info("bounds", "main-context ops <= %d, callback actions <= %d, deviations <= %d, descriptors %d, timers <= %d, immediates <= %d; timeouts %s", op_bound, cb_action_bound, dev, NFD, NTIMER, NIMM,
-	    alt_mode ? "{0, 2^-9 s, 2^-8 s, 30 days} through events_timer_register_double" : "{0, 1.5 ms, 3 ms, 1 h}");
+	    alt_mode ? "{0, 2^-9 s, 2147483.875 s, 30 days} through events_timer_register_double" : "{0, 1.5 ms, 3 ms, 1 h}");
 	teardown();	/* same starting point as every later execution */
 	if (vf_replay) {
 		int bound = dev; const char * ch;
